@@ -138,6 +138,13 @@ def run_case(case):
                 # ... and a second one is waiting for its turn behind it
                 pend2 = asyncio.ensure_future(gw.send_data(b"queued"))
             await vloop.settle(loop, 3)
+        if case.get("stray"):
+            # the prior traffic ended with stray control bytes from the NCP (a lone XOFF because its buffer was
+            # full for a moment, XOFF + XON, a CANCEL): none of them is a frame, none of them changes what a
+            # reset request has to do
+            tr.append(("rx", clock(), ("stray", case["stray"])))
+            proto.data_received(bytes.fromhex(case["stray"]))
+            await vloop.settle(loop, 2)
         tr.append(("prior_done", clock()))
 
         def lose(kind):
@@ -484,6 +491,14 @@ def gen_cases(tier, seed):
     # all 64 counter pairs with a clean completion
     for (i, j) in pairs:
         cases.append({"waiter": "reset", "tx": i, "rx": j, "script": [("in", "rstack", SOFTWARE)]})
+    # ... and after stray flow-control / cancel bytes from the NCP
+    for k, (i, j) in enumerate(pairs):
+        if tier == "quick" and k % 3:
+            continue
+        for stray in ("13", "1311", "11", "1a", "1313"):
+            cases.append({"waiter": "reset", "tx": i, "rx": j, "stray": stray, "script": [("in", "rstack", SOFTWARE)]})
+        cases.append({"waiter": "reset", "tx": i, "rx": j, "stray": "13", "script": [("in", "rstack", 0x02)]})
+        cases.append({"waiter": "reset", "tx": i, "rx": j, "stray": "13", "script": []})
     codes = [0x00, 0x01, 0x02, 0x03, 0x06, 0x09, 0x51, 0x80, 0xFF] if tier == "quick" else list(range(0, 256, 5))
     err_codes = [0x51, 0x52, 0x53, 0x80, 0x02, 0x00, 0x01] if tier == "quick" else [c for c in range(256) if c != SOFTWARE]
     whens = ["pre", "in", "T-", "T+", "late"]
